@@ -8,7 +8,7 @@ CONSTANTS
   Pres <- Empty
   Epis <- Empty
   Leads = {FALSE}
-  MaxChunks = 3
+  MaxChunks = 2
   MaxMem <- NoLim
   MaxPartsLim <- NoLim
 INIT Init
